@@ -3,21 +3,29 @@ import Eliot.Proofs.ParseParser
 import Eliot.Proofs.ParseFlatParser
 import Eliot.Properties.C09
 /-!
-# C09 — the algorithm `parse.py` actually runs (flat `_nodes` map, upward walk) computes what the trie model computes
+# C09 — the algorithm `parse.py` actually runs (flat `_nodes` map, upward walk) follows the trie model wherever the trie succeeds
 
 The C09 theorems (`Properties/C09.lean`) are about `Task.add` of `Model/Parse.lean`, a path update of one trie.
 `parse.py` keeps a flat map from levels to actions with embedded copies of their children and re-inserts every
-ancestor bottom-up; `Model/ParseFlat.lean` is that algorithm.  Here:
+ancestor bottom-up; `Model/ParseFlat.lean` is that algorithm.  Here (all statements are conditional on the trie's `add`
+succeeding; where it fails — in particular `underMessage`, a message at or below a plain message, where the code does not
+fail — nothing is claimed):
 
-* `flat_refines_trie` — from any state in which the map mirrors the trie (`Inv`), one `add` inside the domain keeps
-  it so (and succeeds whenever the trie's `add` does), for every message and every state, not only spec states;
-* `flat_sequence_refines_trie` — the same for any sequence; `flat_root_and_complete` — `root()` and `is_complete()`
-  then agree;
+* `flat_refines_trie` — from any state in which the map mirrors the trie (`Inv`), an `add` inside the domain `PlainDom`
+  on which the trie succeeds succeeds on the map too and keeps the mirror; for every such message and state, not only
+  spec states;
+* `flat_sequence_refines_trie` — the same for any sequence; `flat_root_and_complete` — `root()`, `is_complete()` and every
+  `_nodes` entry then agree;
 * `spec_stream_in_domain` — a message of a well-formed task never leaves the domain, whatever has arrived so far;
-* `flat_follows_spec` — hence for **every subset, in every order,** of the messages of a well-formed action task the
-  code-shaped algorithm ends with `root()` = the view of the specification tree on what arrived and is complete
-  exactly when the trie is: order-independence, exact completeness and reconstruction (C09) hold for the flat
-  algorithm too.
+* `flat_follows_spec`, `flat_complete_iff_all_arrived` — for every duplicate-free sub-list, in every order, of the messages
+  of one well-formed action task the flat algorithm succeeds, `root()` is the view of the specification tree on what arrived,
+  and `is_complete()` is true exactly when everything arrived;
+* `flat_parse_stream_follows_spec` — the whole parser (`FParser`, several tasks, single-message tasks): for every well-formed
+  forest and every duplicate-free sub-list of its messages in every order the flat parser yields, in the same order, tasks
+  mirroring the trie parser's; `flat_perm_invariant` — order independence in the code's own terms (`FTask.Same`: the same
+  `_nodes` entries, the same `_completed` set).
+  The order in which `parse_stream` hands out the *incomplete* leftovers at the end is the model's association-list order
+  (most recently touched first); Python's is the hash order of a `pmap`; no theorem and no comparison speaks about it.
 -/
 namespace PM.C09Flat
 open PM
@@ -148,9 +156,10 @@ theorem domP_of_spec {ts : Spec} (hwf : ts.WF) : ∀ (ms : List PMsg) (S : PMsg 
 
 /-- **`parse_stream` as the code runs it:** for every forest of well-formed tasks and every duplicate-free sub-list of its
 messages in every order, the parser over flat tasks succeeds and yields, in the same order and under the same uuids, tasks that
-mirror the trie parser's (`PInv`: same `root()`, same `is_complete()`, same `_nodes` entries) - so `feed_ok`,
-`parse_perm_invariant`, `complete_iff_all_arrived`, `never_early`, `yield_exactly_once` and `reconstruct` are statements about
-the flat algorithm as well. -/
+mirror the trie parser's (`PInv`: same `root()`, same `is_complete()`, same `_nodes` entries).  What `feed_ok`,
+`complete_iff_all_arrived`, `never_early`, `yield_exactly_once` and `reconstruct` say about the yielded trie tasks can be read
+off the flat tasks through `PInv.get` / `PInv.mem_left`; stated as theorems of their own: `flat_perm_invariant`,
+`flat_complete_iff_all_arrived`, `C01.roundtrip_flat`, `C11.crash_parse_flat`, `C17.parser_builds_same_flat`. -/
 theorem flat_parse_stream_follows_spec {ts : Spec} (hwf : ts.WF) (ms : List PMsg) (hnd : ms.Nodup)
     (hin : ∀ m ∈ ms, m ∈ ts.msgs) :
     ∃ out fout, parseStream ms = .ok out ∧ fparseStream ms = .ok fout ∧ PInv fout out := by
@@ -169,6 +178,79 @@ theorem PInv.get {fout : List (String × FTask)} {out : List (String × Task)} (
   | nil => simp
   | cons hi _ ih =>
     simp only [List.map_cons, ih.1, ih.2.1, ih.2.2, hi.root_eq, hi.complete_eq, and_self]
+
+/-- `Task.__eq__` on the code's representation: the same `_nodes` map (entry by entry) and the same `_completed` set -/
+def FTask.Same (F₁ F₂ : FTask) : Prop :=
+  (∀ L, F₁.get L = F₂.get L) ∧ (∀ L, F₁.completed.contains L = F₂.completed.contains L)
+
+theorem PInv.mem_left {fout : List (String × FTask)} {out : List (String × Task)} (h : PInv fout out) {u : String} {FT : FTask}
+    (hm : (u, FT) ∈ fout) : ∃ T, (u, T) ∈ out ∧ Inv FT T := by
+  induction h with
+  | nil => cases hm
+  | @cons u' ft t fp p hi _ ih =>
+    rcases List.mem_cons.mp hm with h | h
+    · cases h; exact ⟨t, List.mem_cons_self, hi⟩
+    · obtain ⟨T, h1, h2⟩ := ih h
+      exact ⟨T, List.mem_cons_of_mem _ h1, h2⟩
+
+theorem PInv.mem_right {fout : List (String × FTask)} {out : List (String × Task)} (h : PInv fout out) {u : String} {T : Task}
+    (hm : (u, T) ∈ out) : ∃ FT, (u, FT) ∈ fout ∧ Inv FT T := by
+  induction h with
+  | nil => cases hm
+  | @cons u' ft t fp p hi _ ih =>
+    rcases List.mem_cons.mp hm with h | h
+    · cases h; exact ⟨ft, List.mem_cons_self, hi⟩
+    · obtain ⟨FT, h1, h2⟩ := ih h
+      exact ⟨FT, List.mem_cons_of_mem _ h1, h2⟩
+
+theorem same_of_inv {F₁ F₂ : FTask} {T₁ T₂ : Task} (h₁ : Inv F₁ T₁) (h₂ : Inv F₂ T₂) (hs : C09.Task.Same T₁ T₂) :
+    FTask.Same F₁ F₂ := by
+  refine ⟨fun L => ?_, fun L => ?_⟩
+  · by_cases hL : L = []
+    · subst hL
+      have a := h₁.root_eq; have b := h₂.root_eq
+      simp only [FTask.root] at a b
+      rw [a, b, hs.1]
+    · rw [h₁.get_eq L hL, h₂.get_eq L hL, Task.lookup, Task.lookup, hs.1]
+  · rw [h₁.comp L, h₂.comp L, hs.2 L]
+
+/-- **Order independence in the code's own terms.**  For two orders (and interleavings) of the same duplicate-free messages of a
+well-formed forest, the flat parser yields tasks under the same uuids, each once, and for every uuid the two `Task` values are equal
+as Python compares them - the same `_nodes` entry under every level, the same `_completed` set - and equally complete. -/
+theorem flat_perm_invariant {ts : Spec} (hwf : ts.WF) (ms₁ ms₂ : List PMsg) (hperm : ms₁.Perm ms₂)
+    (hnd : ms₁.Nodup) (hin : ∀ m ∈ ms₁, m ∈ ts.msgs) :
+    ∃ f₁ f₂, fparseStream ms₁ = .ok f₁ ∧ fparseStream ms₂ = .ok f₂ ∧
+      (f₁.map (·.1)).Nodup ∧ (f₂.map (·.1)).Nodup ∧
+      (∀ u, (∃ F, (u, F) ∈ f₁) ↔ (∃ F, (u, F) ∈ f₂)) ∧
+      (∀ u F₁ F₂, (u, F₁) ∈ f₁ → (u, F₂) ∈ f₂ → FTask.Same F₁ F₂ ∧ F₁.isComplete = F₂.isComplete) := by
+  have hnd₂ : ms₂.Nodup := hperm.nodup_iff.mp hnd
+  have hin₂ : ∀ m ∈ ms₂, m ∈ ts.msgs := fun m hm => hin m (hperm.mem_iff.mpr hm)
+  obtain ⟨o₁, o₂, h₁, h₂, n₁, n₂, hkeys, hsame⟩ := C09.parse_perm_invariant hwf ms₁ ms₂ hperm hnd hin
+  obtain ⟨o₁', f₁, a₁, b₁, p₁⟩ := flat_parse_stream_follows_spec hwf ms₁ hnd hin
+  obtain ⟨o₂', f₂, a₂, b₂, p₂⟩ := flat_parse_stream_follows_spec hwf ms₂ hnd₂ hin₂
+  have e₁ : o₁' = o₁ := by rw [h₁] at a₁; cases a₁; rfl
+  have e₂ : o₂' = o₂ := by rw [h₂] at a₂; cases a₂; rfl
+  subst e₁; subst e₂
+  have k₁ := (PInv.get p₁).1
+  have k₂ := (PInv.get p₂).1
+  refine ⟨f₁, f₂, b₁, b₂, by rw [k₁]; exact n₁, by rw [k₂]; exact n₂, ?_, ?_⟩
+  · intro u
+    constructor
+    · rintro ⟨F, hF⟩
+      obtain ⟨T, hT, _⟩ := PInv.mem_left p₁ hF
+      obtain ⟨T₂, hT₂⟩ := (hkeys u).mp ⟨T, hT⟩
+      obtain ⟨F₂, hF₂, _⟩ := PInv.mem_right p₂ hT₂
+      exact ⟨F₂, hF₂⟩
+    · rintro ⟨F, hF⟩
+      obtain ⟨T, hT, _⟩ := PInv.mem_left p₂ hF
+      obtain ⟨T₁, hT₁⟩ := (hkeys u).mpr ⟨T, hT⟩
+      obtain ⟨F₁, hF₁, _⟩ := PInv.mem_right p₁ hT₁
+      exact ⟨F₁, hF₁⟩
+  · intro u F₁ F₂ hF₁ hF₂
+    obtain ⟨T₁, hT₁, i₁⟩ := PInv.mem_left p₁ hF₁
+    obtain ⟨T₂, hT₂, i₂⟩ := PInv.mem_left p₂ hF₂
+    obtain ⟨hs, hc⟩ := hsame u T₁ T₂ hT₁ hT₂
+    exact ⟨same_of_inv i₁ i₂ hs, by rw [i₁.complete_eq, i₂.complete_eq, hc]⟩
 
 /-! Non-vacuity: a concrete out-of-order stream (end of the inner action first), both algorithms run by the kernel. -/
 def exTree : Tree := .node "outer" 10 19 true (.cons (.leaf 11) (.cons (.node "inner" 12 14 false (.cons (.leaf 13) .nil)) .nil))
